@@ -102,8 +102,11 @@ def s2(tier):
                         other = c + (('zz', KWO, True),) if not space.has(c, VK) else c
                         if space.has(c, VK):
                             other = tuple(p for p in c if p[1] != VK) + (('zz', KWO, True), ('kwargs', VK, False))
-                        for c2 in (c, other):
-                            cs2 = CallSpec(c2, cs.npos, cs.names, cs.va, cs.vk)
+                        # ... and a callee each call forwards to happily but whose requirements cannot be merged
+                        nm = 'y' if 'y' not in space.names_of(c) else 'zz'
+                        clash = ((nm, KWO, False),)
+                        for c2 in (c, other, clash):
+                            cs2 = CallSpec(c2, 0 if c2 is clash else cs.npos, () if c2 is clash else cs.names, cs.va, cs.vk)
                             out.append(Prog(o, (cs, cs2), ctx, route, None))
                     else:
                         out.append(Prog(o, (cs,), ctx, route, None))
